@@ -430,6 +430,11 @@ Definition in_universe_label (U : list uri) (l : label) : Prop :=
 Definition in_universe_init (U : list uri) (f : fmap content) : Prop :=
   forall u c, f u = Some c -> In u U.
 
+(* job-atomic steps over the universe; histories without a config change *)
+Definition job_atomic_label (U : list uri) (l : label) : Prop := atomic l = true /\ in_universe_label U l.
+Definition no_config_label (l : label) : Prop :=
+  match l with LEvent (EConfig _) => False | _ => True end.
+
 (* the statement of C15 at the job-atomic level, for the behaviour selected by [fx] *)
 Definition converges_statement (fx : fixes) (sched_ok : label -> Prop) : Prop :=
   forall (U : list uri) parses perr fdiags areport nonagg agg,
@@ -503,3 +508,6 @@ Definition ex_history : list label :=
   startup ++ LEvent (ESet 1 3) :: settle ++ LEvent (ERename 1 2) :: settle ++ LEvent (EConfig 2) :: [LDispatch; LRun]
   ++ LEvent (ESet 1 1) :: settle ++ LEvent (EDelete 2) :: [LDispatch; LRun].
 
+
+Definition ex_history2 : list label :=
+  startup ++ LEvent (ESet 1 2) :: settle ++ LEvent (ESet 0 0) :: settle ++ LEvent (ESet 1 3) :: settle.
